@@ -610,3 +610,488 @@ Proof.
   - exact Hg.
   - apply IH. eapply lstep_good; eassumption.
 Qed.
+
+(* ------------------------------------------------------------------ *)
+(* the `finally` block                                                *)
+(* ------------------------------------------------------------------ *)
+
+Lemma finally_cases : forall w,
+  (finally w = log ECleanup w /\ (w_last w = None \/ w_dirty w = false)) \/
+  (exists t, w_last w = Some t /\ w_dirty w = true /\
+             finally w = write_file (content t) (log ECleanup w)).
+Proof.
+  intros w. unfold finally. wsimpl.
+  destruct (w_last w) as [t|]; [destruct (w_dirty w) eqn:D|].
+  - right. exists t. split; [reflexivity|]. split; reflexivity.
+  - left. split; [reflexivity | right; reflexivity].
+  - left. split; [reflexivity | left; reflexivity].
+Qed.
+
+Lemma finally_chron_quiet : forall w,
+  exists q, forallb quietb q = true /\ chron (finally w) = chron w ++ q.
+Proof.
+  intros w. destruct (finally_cases w) as [[He _]|(t & _ & _ & He)]; rewrite He.
+  - exists [ECleanup]. split; reflexivity.
+  - exists [ECleanup; EWrite (content t)]. split; [reflexivity|].
+    rewrite chron_write_file, chron_log, <- app_assoc. reflexivity.
+Qed.
+
+Lemma fin_finally : forall fo it w, fin fo it w -> fin fo it (finally w).
+Proof.
+  intros fo it w Hf. destruct (finally_cases w) as [[He _]|(t & _ & _ & He)]; rewrite He.
+  - apply (fin_quiet fo it w (log ECleanup w) [ECleanup] Hf); try reflexivity.
+    intros H. exact H.
+  - apply (fin_quiet fo it w (write_file (content t) (log ECleanup w))
+                     [ECleanup; EWrite (content t)] Hf); try reflexivity.
+    + rewrite chron_write_file, chron_log, <- app_assoc. reflexivity.
+    + intros H. exact H.
+    + intros H. exfalso. inversion H as [|x r Hx Hr].
+      exact (no_writes_write_absurd _ _ Hr).
+Qed.
+
+Lemma hooks_finally : forall w, hooks_pre (chron w) -> hooks_ok (chron (finally w)).
+Proof.
+  intros w [mid [Heq Hmid]].
+  destruct (finally_cases w) as [[He _]|(t & _ & _ & He)]; rewrite He.
+  - exists mid, []. split; [|split; [exact Hmid | constructor]].
+    rewrite chron_log, Heq. reflexivity.
+  - exists mid, [EWrite (content t)]. split; [|split; [exact Hmid|]].
+    + rewrite chron_write_file, chron_log, Heq, <- app_assoc. reflexivity.
+    + constructor; [reflexivity | constructor].
+Qed.
+
+Lemma file_finally : forall w t,
+  w_last w = Some t -> w_dirty w = true \/ w_file w = content t ->
+  w_file (finally w) = content t.
+Proof.
+  intros w t Hl Hd. destruct (finally_cases w) as [[He Hc]|(t' & Hl' & _ & He)]; rewrite He.
+  - wsimpl. destruct Hc as [Hc|Hc]; [rewrite Hc in Hl; discriminate Hl|].
+    destruct Hd as [Hd|Hd]; [rewrite Hd in Hc; discriminate Hc | exact Hd].
+  - wsimpl. rewrite Hl in Hl'. inversion Hl'. reflexivity.
+Qed.
+
+(* ------------------------------------------------------------------ *)
+(* end of the loop                                                    *)
+(* ------------------------------------------------------------------ *)
+
+Lemma loop_final : forall S (strat : strategy S) verdict fo fuel st it w r,
+  good fo it w -> loop strat verdict fuel st it w = r ->
+  exists it', fin fo it' (result_world r) /\ hooks_pre (chron (result_world r)) /\
+    match r with
+    | Finished rc wf => rc = (if it_any it' then 0 else 1) /\ w_file wf = content (it_best it')
+    | Aborted None wf => w_dirty wf = true
+    | _ => True
+    end.
+Proof.
+  intros S strat verdict fo fuel st it w r Hg Hr.
+  destruct (loop_follows_lsteps S strat verdict fuel st it w r Hr) as (st' & it' & w' & Hs & Hm).
+  pose proof (lsteps_good S strat verdict fo _ _ Hs Hg) as Hg'. cbn [on_state] in Hg'.
+  destruct r as [rc wf|[e|] wf|wf]; cbn [result_world].
+  - destruct Hm as (_ & Hwf & Hrc). subst wf. destruct Hg' as [Hf [_ Hhk]].
+    exists it'. split; [apply fin_write_file; exact Hf|]. split.
+    + rewrite chron_write_file. apply hooks_pre_app; [exact Hhk|].
+      constructor; [apply not_hook_write | constructor].
+    + split; [exact Hrc | reflexivity].
+  - destruct Hm as [_ Hwf]. subst wf. destruct Hg' as [Hf [_ Hhk]].
+    exists it'. split; [exact Hf|]. split; [exact Hhk | exact I].
+  - destruct Hm as (t & k & _ & Hmem & Hi).
+    destruct (good_tested fo verdict it' w' t wf Raise Hg' Hmem Hi) as (Hf & _ & Hhk & Hd).
+    exists (it_after it' t Raise). split; [exact Hf|]. split; [exact Hhk | exact Hd].
+  - subst wf. destruct Hg' as [Hf [_ Hhk]].
+    exists it'. split; [exact Hf|]. split; [exact Hhk | exact I].
+Qed.
+
+Lemma loop_run_summary : forall S (strat : strategy S) verdict fo fuel st it w r,
+  good fo it w -> map_world finally (loop strat verdict fuel st it w) = r ->
+  exists it', fin fo it' (result_world r) /\
+    match r with
+    | Finished rc wf => rc = (if it_any it' then 0 else 1) /\
+                        w_file wf = content (it_best it') /\ hooks_ok (chron wf)
+    | Aborted e wf => hooks_ok (chron wf) /\
+                      (w_file wf = content (it_best it') \/
+                       (e <> None /\ n_tests (chron wf) = 1))
+    | NoFuel wf => True
+    end.
+Proof.
+  intros S strat verdict fo fuel st it w r Hg Hr.
+  destruct (loop_final S strat verdict fo fuel st it w _ Hg eq_refl) as (it' & Hf & Hhk & Hm).
+  destruct (loop strat verdict fuel st it w) as [rc wf|e wf|wf];
+    cbn [map_world] in Hr; subst r; cbn [result_world] in *; exists it'.
+  - split; [apply fin_finally; exact Hf|]. destruct Hm as [Hrc Hfile].
+    split; [exact Hrc|]. split; [|apply hooks_finally; exact Hhk].
+    apply file_finally; [apply (g_last _ _ (proj1 Hf)) | right; exact Hfile].
+  - split; [apply fin_finally; exact Hf|]. split; [apply hooks_finally; exact Hhk|].
+    destruct (w_dirty wf) eqn:D.
+    + left. apply file_finally; [apply (g_last _ _ (proj1 Hf)) | left; exact D].
+    + right. split.
+      * intros He. subst e. cbv beta iota in Hm. discriminate Hm.
+      * destruct (finally_chron_quiet wf) as (q & Hq & Hc).
+        rewrite Hc, (n_tests_quiet_app _ _ Hq).
+        destruct (g_dirty _ _ (proj1 Hf)) as [H|H]; [rewrite H in D; discriminate D | exact H].
+  - split; [exact Hf | exact I].
+Qed.
+
+(* ------------------------------------------------------------------ *)
+(* Strategy.main / Lithium.run: the four ways a run can go            *)
+(* ------------------------------------------------------------------ *)
+
+Definition w0 (tc0 : tcase) (file0 : bytes) : world :=
+  temp_copy Original (content tc0) false (log EInit (init_world file0)).
+Definition w1 (tc0 : tcase) (file0 : bytes) (a : answer) : world :=
+  log (ETest 1 1 file0 a) (count_test (tc_len tc0) (w0 tc0 file0)).
+Definition wY (tc0 : tcase) (file0 : bytes) : world :=
+  set_last tc0 (temp_copy (Numbered 1 true) (content tc0) true (w1 tc0 file0 Yes)).
+Definition wN (tc0 : tcase) (file0 : bytes) : world :=
+  temp_copy (Numbered 1 false) (content tc0) true (w1 tc0 file0 No).
+Definition it0 (tc0 : tcase) : iter := {| it_best := tc0; it_tried := []; it_any := false |}.
+
+Lemma interesting_initial : forall verdict tc0 file0,
+  interesting verdict (w0 tc0 file0) tc0 false =
+  (match verdict 1 file0 with
+   | Yes => wY tc0 file0 | No => wN tc0 file0 | Raise => w1 tc0 file0 Raise end,
+   verdict 1 file0).
+Proof.
+  intros verdict tc0 file0. unfold interesting. cbv zeta.
+  change (w_tests (count_test (tc_len tc0) (w0 tc0 file0))) with 1.
+  change (w_file (count_test (tc_len tc0) (w0 tc0 file0))) with file0.
+  destruct (verdict 1 file0); reflexivity.
+Qed.
+
+Lemma run_cases : forall S (strat : strategy S) verdict fuel tc0 file0,
+  (tc_len tc0 = 0 /\
+   run strat verdict fuel tc0 file0 = Finished 0 (finally (w0 tc0 file0))) \/
+  (tc_len tc0 <> 0 /\ verdict 1 file0 = Raise /\
+   run strat verdict fuel tc0 file0 = Aborted None (finally (w1 tc0 file0 Raise))) \/
+  (tc_len tc0 <> 0 /\ verdict 1 file0 = No /\
+   run strat verdict fuel tc0 file0 = Finished 1 (finally (wN tc0 file0))) \/
+  (tc_len tc0 <> 0 /\ verdict 1 file0 = Yes /\
+   run strat verdict fuel tc0 file0 =
+   map_world finally (loop strat verdict fuel (s_start strat tc0) (it0 tc0) (wY tc0 file0))).
+Proof.
+  intros S strat verdict fuel tc0 file0. unfold run, strategy_main.
+  change (temp_copy Original (content tc0) false (log EInit (init_world file0)))
+    with (w0 tc0 file0).
+  destruct (tc_len tc0 =? 0) eqn:E.
+  - left. apply Z.eqb_eq in E. split; [exact E | reflexivity].
+  - right. apply Z.eqb_neq in E. rewrite interesting_initial.
+    destruct (verdict 1 file0) eqn:V.
+    + right. right. split; [exact E|]. split; reflexivity.
+    + right. left. split; [exact E|]. split; reflexivity.
+    + left. split; [exact E|]. split; reflexivity.
+Qed.
+
+Ltac solve_not_hooks :=
+  repeat first [ apply Forall_nil
+               | apply Forall_cons;
+                 [ first [apply not_hook_write | apply not_hook_test | apply not_hook_copy] | ] ].
+
+Lemma good_start_G : forall tc0 file0, good None (it0 tc0) (wY tc0 file0).
+Proof.
+  intros tc0 file0. split; [split; [|exact I]|split].
+  - constructor.
+    + reflexivity.
+    + reflexivity.
+    + reflexivity.
+    + cbn. split; [reflexivity | exact I].
+    + exists (ETest 1 1 file0 Yes), []. split; reflexivity.
+    + constructor.
+    + split; [intros H; discriminate H|].
+      intros (k & p & f & Hlt & HIn). exfalso. cbn in HIn.
+      destruct HIn as [H|[H|[H|[H|H]]]]; try discriminate H; [|exact H].
+      inversion H. lia.
+    + right. reflexivity.
+  - reflexivity.
+  - exists [ECopy Original (content tc0); ETest 1 1 file0 Yes;
+            ECopy (Numbered 1 true) (content tc0)].
+    split; [reflexivity | solve_not_hooks].
+Qed.
+
+Lemma good_start_H : forall tc0 file0,
+  content tc0 = file0 -> good (Some file0) (it0 tc0) (wY tc0 file0).
+Proof.
+  intros tc0 file0 Hc. destruct (good_start_G tc0 file0) as [[HG _] Hrest].
+  split; [split; [exact HG|]|exact Hrest]. subst file0. cbn [optH]. constructor.
+  - reflexivity.
+  - reflexivity.
+  - reflexivity.
+  - cbn. repeat split.
+  - intros _. reflexivity.
+Qed.
+
+Lemma hooks_pre_w0 : forall tc0 file0, hooks_pre (chron (w0 tc0 file0)).
+Proof.
+  intros tc0 file0. exists [ECopy Original (content tc0)].
+  split; [reflexivity | solve_not_hooks].
+Qed.
+Lemma hooks_pre_w1 : forall tc0 file0 a, hooks_pre (chron (w1 tc0 file0 a)).
+Proof.
+  intros tc0 file0 a. exists [ECopy Original (content tc0); ETest 1 1 file0 a].
+  split; [reflexivity | solve_not_hooks].
+Qed.
+Lemma hooks_pre_wN : forall tc0 file0, hooks_pre (chron (wN tc0 file0)).
+Proof.
+  intros tc0 file0.
+  exists [ECopy Original (content tc0); ETest 1 1 file0 No; ECopy (Numbered 1 false) (content tc0)].
+  split; [reflexivity | solve_not_hooks].
+Qed.
+
+(* ------------------------------------------------------------------ *)
+(* C01                                                                *)
+(* ------------------------------------------------------------------ *)
+
+Lemma run_final_is_last_accepted :
+  forall S (strat : strategy S) verdict fuel tc0 file0 rc w,
+    content tc0 = file0 ->
+    run strat verdict fuel tc0 file0 = Finished rc w ->
+    w_file w = last_accepted (chron w) file0.
+Proof.
+  intros S strat verdict fuel tc0 file0 rc w Hc Hr.
+  destruct (run_cases S strat verdict fuel tc0 file0)
+    as [[_ He]|[(_ & _ & He)|[(_ & _ & He)|(_ & _ & He)]]]; rewrite He in Hr.
+  - inversion Hr; subst. reflexivity.
+  - discriminate Hr.
+  - inversion Hr; subst. reflexivity.
+  - destruct (loop_run_summary S strat verdict (Some file0) fuel _ _ _ _
+                               (good_start_H tc0 file0 Hc) Hr)
+      as (it' & [HG HH] & _ & Hfile & _).
+    cbn [result_world optH] in HH. rewrite Hfile. apply (h_best _ _ _ HH).
+Qed.
+
+Lemma loop_start_yes : forall S (strat : strategy S) verdict tc0 file0,
+  verdict 1 file0 = Yes ->
+  loop_start strat verdict tc0 file0 = LS (s_start strat tc0) (it0 tc0) (wY tc0 file0).
+Proof.
+  intros S strat verdict tc0 file0 Hv. unfold loop_start.
+  change (temp_copy Original (content tc0) false (log EInit (init_world file0)))
+    with (w0 tc0 file0).
+  rewrite interesting_initial, Hv. reflexivity.
+Qed.
+
+Lemma basis_is_last_accepted :
+  forall S (strat : strategy S) verdict tc0 file0 st it w,
+    content tc0 = file0 ->
+    verdict 1 file0 = Yes ->
+    lsteps strat verdict (loop_start strat verdict tc0 file0) (LS st it w) ->
+    content (it_best it) = last_accepted (chron w) file0.
+Proof.
+  intros S strat verdict tc0 file0 st it w Hc Hv Hs.
+  rewrite (loop_start_yes S strat verdict tc0 file0 Hv) in Hs.
+  pose proof (lsteps_good S strat verdict (Some file0) _ _ Hs (good_start_H tc0 file0 Hc)) as Hg.
+  cbn [on_state] in Hg. destruct Hg as [[_ HH] _]. cbn [optH] in HH.
+  apply (h_best _ _ _ HH).
+Qed.
+
+(* ------------------------------------------------------------------ *)
+(* C02                                                                *)
+(* ------------------------------------------------------------------ *)
+
+(* The statement of Props/C02.v `C02_abort_restores` is FALSE of the model: a strategy that
+   raw-writes the testcase file and then raises before any candidate was tested leaves the raw
+   bytes on disk (testcase_written is still False, so `finally` does not re-dump). *)
+Definition cx_strat : strategy bool :=
+  {| s_start := fun _ => false;
+     s_next := fun st _ => if st then Fail RuntimeError else RawWrite [1%N] true |}.
+Definition cx_tc : tcase :=
+  {| tc_before := []; tc_parts := [[0%N]]; tc_red := [true]; tc_after := [] |}.
+
+Lemma run_abort_restores_counterexample :
+  ~ (forall S (strat : strategy S) verdict fuel tc0 file0 e w,
+        content tc0 = file0 ->
+        run strat verdict fuel tc0 file0 = Aborted e w ->
+        w_file w = last_accepted (chron w) file0 /\ hooks_ok (chron w)).
+Proof.
+  intros H.
+  pose proof (H bool cx_strat (fun _ _ => Yes) 2%nat cx_tc [0%N]) as H'.
+  vm_compute in H'.
+  destruct (H' _ _ eq_refl eq_refl) as [Hf _]. discriminate Hf.
+Qed.
+
+Lemma run_abort_restores_corrected :
+  forall S (strat : strategy S) verdict fuel tc0 file0 e w,
+    content tc0 = file0 ->
+    run strat verdict fuel tc0 file0 = Aborted e w ->
+    (e = None \/ 1 < n_tests (chron w) \/ no_writes (chron w) ->
+     w_file w = last_accepted (chron w) file0) /\
+    hooks_ok (chron w).
+Proof.
+  intros S strat verdict fuel tc0 file0 e w Hc Hr.
+  destruct (run_cases S strat verdict fuel tc0 file0)
+    as [[_ He]|[(_ & _ & He)|[(_ & _ & He)|(_ & _ & He)]]]; rewrite He in Hr.
+  - discriminate Hr.
+  - inversion Hr; subst. split; [intros _; reflexivity|].
+    apply hooks_finally. apply hooks_pre_w1.
+  - discriminate Hr.
+  - destruct (loop_run_summary S strat verdict (Some file0) fuel _ _ _ _
+                               (good_start_H tc0 file0 Hc) Hr)
+      as (it' & [HG HH] & Hhk & Hfile).
+    cbn [result_world optH] in HG, HH. split; [|exact Hhk].
+    intros Hcond. destruct Hfile as [Hfile|[Hne Hn1]].
+    + rewrite Hfile. apply (h_best _ _ _ HH).
+    + destruct Hcond as [Hcond|[Hcond|Hcond]].
+      * exfalso. exact (Hne Hcond).
+      * exfalso. lia.
+      * apply (h_nowr _ _ _ HH). exact Hcond.
+Qed.
+
+Lemma run_finished_hooks :
+  forall S (strat : strategy S) verdict fuel tc0 file0 rc w,
+    run strat verdict fuel tc0 file0 = Finished rc w -> hooks_ok (chron w).
+Proof.
+  intros S strat verdict fuel tc0 file0 rc w Hr.
+  destruct (run_cases S strat verdict fuel tc0 file0)
+    as [[_ He]|[(_ & _ & He)|[(_ & _ & He)|(_ & _ & He)]]]; rewrite He in Hr.
+  - inversion Hr; subst. apply hooks_finally. apply hooks_pre_w0.
+  - discriminate Hr.
+  - inversion Hr; subst. apply hooks_finally. apply hooks_pre_wN.
+  - destruct (loop_run_summary S strat verdict None fuel _ _ _ _
+                               (good_start_G tc0 file0) Hr)
+      as (it' & _ & _ & _ & Hhk).
+    exact Hhk.
+Qed.
+
+Lemma run_kill_chk : forall S (strat : strategy S) verdict fuel tc0 file0,
+  content tc0 = file0 ->
+  kill_chk (chron (result_world (run strat verdict fuel tc0 file0))) None file0.
+Proof.
+  intros S strat verdict fuel tc0 file0 Hc.
+  destruct (run_cases S strat verdict fuel tc0 file0)
+    as [[_ He]|[(_ & _ & He)|[(_ & _ & He)|(_ & _ & He)]]]; rewrite He.
+  - subst file0. cbn. repeat split.
+  - subst file0. cbn. repeat split.
+  - subst file0. cbn. repeat split.
+  - destruct (loop_run_summary S strat verdict (Some file0) fuel (s_start strat tc0) (it0 tc0)
+                               (wY tc0 file0) _ (good_start_H tc0 file0 Hc) eq_refl)
+      as (it' & [_ HH] & _).
+    cbn [optH] in HH. apply (h_kill _ _ _ HH).
+Qed.
+
+Lemma kill_tempdir :
+  forall S (strat : strategy S) verdict fuel tc0 file0 pre k p f a post,
+    content tc0 = file0 ->
+    chron (result_world (run strat verdict fuel tc0 file0)) = pre ++ ETest k p f a :: post ->
+    best_tagged (copies pre) None = Some (last_accepted pre file0).
+Proof.
+  intros S strat verdict fuel tc0 file0 pre k p f a post Hc Heq.
+  exact (kill_chk_sound _ file0 pre k p f a post
+                        (run_kill_chk S strat verdict fuel tc0 file0 Hc) Heq).
+Qed.
+
+(* ------------------------------------------------------------------ *)
+(* C11                                                                *)
+(* ------------------------------------------------------------------ *)
+
+Lemma run_rejected_original :
+  forall S (strat : strategy S) verdict fuel tc0 file0,
+    tc_len tc0 <> 0 -> verdict 1 file0 = No ->
+    exists w, run strat verdict fuel tc0 file0 = Finished 1 w /\
+              n_tests (chron w) = 1 /\ no_writes (chron w) /\ w_file w = file0.
+Proof.
+  intros S strat verdict fuel tc0 file0 Hlen Hv.
+  destruct (run_cases S strat verdict fuel tc0 file0)
+    as [[Hl He]|[(_ & Hv' & He)|[(_ & _ & He)|(_ & Hv' & He)]]].
+  - exfalso. exact (Hlen Hl).
+  - rewrite Hv in Hv'. discriminate Hv'.
+  - exists (finally (wN tc0 file0)). split; [exact He|].
+    split; [reflexivity|]. split; [|reflexivity].
+    cbn. repeat constructor.
+  - rewrite Hv in Hv'. discriminate Hv'.
+Qed.
+
+Lemma run_nothing_to_reduce :
+  forall S (strat : strategy S) verdict fuel tc0 file0,
+    tc_len tc0 = 0 ->
+    exists w, run strat verdict fuel tc0 file0 = Finished 0 w /\
+              n_tests (chron w) = 0 /\ no_writes (chron w) /\ w_file w = file0.
+Proof.
+  intros S strat verdict fuel tc0 file0 Hlen.
+  destruct (run_cases S strat verdict fuel tc0 file0)
+    as [[_ He]|[(Hl & _)|[(Hl & _)|(Hl & _)]]]; try (exfalso; exact (Hl Hlen)).
+  exists (finally (w0 tc0 file0)). split; [exact He|].
+  split; [reflexivity|]. split; [|reflexivity].
+  cbn. repeat constructor.
+Qed.
+
+Lemma run_status :
+  forall S (strat : strategy S) verdict fuel tc0 file0 rc w,
+    tc_len tc0 <> 0 -> verdict 1 file0 = Yes ->
+    run strat verdict fuel tc0 file0 = Finished rc w ->
+    (rc = 0 \/ rc = 1) /\
+    (rc = 0 <-> exists k p f, 1 < k /\ In (ETest k p f Yes) (chron w)).
+Proof.
+  intros S strat verdict fuel tc0 file0 rc w Hlen Hv Hr.
+  destruct (run_cases S strat verdict fuel tc0 file0)
+    as [[Hl He]|[(_ & Hv' & He)|[(_ & Hv' & He)|(_ & _ & He)]]].
+  - exfalso. exact (Hlen Hl).
+  - rewrite Hv in Hv'. discriminate Hv'.
+  - rewrite Hv in Hv'. discriminate Hv'.
+  - rewrite He in Hr.
+    destruct (loop_run_summary S strat verdict None fuel _ _ _ _
+                               (good_start_G tc0 file0) Hr)
+      as (it' & [HG _] & Hrc & _).
+    cbn [result_world] in HG. pose proof (g_any _ _ HG) as Hany.
+    destruct (it_any it') eqn:A; subst rc.
+    + split; [left; reflexivity|]. split; [intros _; apply Hany; reflexivity | reflexivity].
+    + split; [right; reflexivity|]. split; [intros H; discriminate H|].
+      intros H. apply Hany in H. discriminate H.
+Qed.
+
+Lemma check_only_spec :
+  forall verdict tc0 file0,
+    exists w, n_tests (chron w) = 1 /\ no_writes (chron w) /\ w_file w = file0 /\
+      run_check_only verdict tc0 file0 =
+        match verdict 1 file0 with
+        | Yes => Finished 0 w | No => Finished 1 w | Raise => Aborted None w end.
+Proof.
+  intros verdict tc0 file0. unfold run_check_only, check_only_main, interesting.
+  cbv zeta.
+  change (w_tests (count_test (tc_len tc0) (log EInit (init_world file0)))) with 1.
+  change (w_file (count_test (tc_len tc0) (log EInit (init_world file0)))) with file0.
+  destruct (verdict 1 file0); cbn [map_world];
+    (eexists; split; [|split; [|split; [|reflexivity]]];
+     [reflexivity | cbn; repeat constructor | reflexivity]).
+Qed.
+
+(* ------------------------------------------------------------------ *)
+(* C12                                                                *)
+(* ------------------------------------------------------------------ *)
+
+Lemma run_temp_log :
+  forall S (strat : strategy S) verdict fuel tc0 file0,
+    content tc0 = file0 ->
+    let w := result_world (run strat verdict fuel tc0 file0) in
+    rev (w_temp w) = (Original, file0) :: expected_temp (chron w) /\
+    numbered_from 1 (tests_of (chron w)) /\
+    w_tests w = n_tests (chron w) /\
+    w_tfc w = n_tests (chron w) + 1 - (if existsb (fun e => match e with ETest _ _ _ Raise => true | _ => false end) (chron w) then 1 else 0).
+Proof.
+  intros S strat verdict fuel tc0 file0 Hc w. subst w.
+  destruct (run_cases S strat verdict fuel tc0 file0)
+    as [[_ He]|[(_ & _ & He)|[(_ & _ & He)|(_ & _ & He)]]]; rewrite He.
+  - subst file0. cbn. repeat split.
+  - subst file0. cbn. repeat split.
+  - subst file0. cbn. repeat split.
+  - destruct (loop_run_summary S strat verdict (Some file0) fuel (s_start strat tc0) (it0 tc0)
+                               (wY tc0 file0) _ (good_start_H tc0 file0 Hc) eq_refl)
+      as (it' & [HG HH] & _).
+    cbn [optH] in HH.
+    split; [apply (h_temp _ _ _ HH)|]. split; [apply (g_num _ _ HG)|].
+    split; [apply (g_tests _ _ HG)|]. apply (g_tfc _ _ HG).
+Qed.
+
+Lemma run_no_duplicate_tests :
+  forall S (strat : strategy S) verdict fuel tc0 file0,
+    let w := result_world (run strat verdict fuel tc0 file0) in
+    NoDup (map test_file (tl (tests_of (chron w)))).
+Proof.
+  intros S strat verdict fuel tc0 file0 w. subst w.
+  destruct (run_cases S strat verdict fuel tc0 file0)
+    as [[_ He]|[(_ & _ & He)|[(_ & _ & He)|(_ & _ & He)]]]; rewrite He.
+  - cbn. constructor.
+  - cbn. constructor.
+  - cbn. constructor.
+  - destruct (loop_run_summary S strat verdict None fuel (s_start strat tc0) (it0 tc0)
+                               (wY tc0 file0) _ (good_start_G tc0 file0) eq_refl)
+      as (it' & [HG _] & _).
+    destruct (g_tried _ _ HG) as (e0 & T & HT & HM).
+    rewrite HT. cbn [tl]. rewrite HM. apply NoDup_rev. apply (g_nodup _ _ HG).
+Qed.
